@@ -118,10 +118,18 @@ func runC18(run *Run, replay string) {
 	jsonShiftOracle(run, bases/2)
 	inserts := []string{"\n", "# comment\n", "// c\n", "# コメント é\n", "\n\n# two\n", "// é\n\n",
 		strings.Repeat("# a longer block of comment lines\n", 9), strings.Repeat("\n", 40) + "// é\n"}
-	for bi := 0; bi < bases; bi++ {
+	every := 6
+	if run.Thorough {
+		every = 1
+	}
+	firstLine := valueFocusFirstLine(every)
+	for bi := 0; bi < bases+len(firstLine); bi++ {
 		r := rand.New(rand.NewSource(subSeed(run.Res.Seed, bi)))
 		var sc *Scenario
-		if bi%2 == 0 {
+		if bi >= bases {
+			// a value under every constraint kind on the first line of the file, every offset of the value
+			sc = firstLine[bi-bases]
+		} else if bi%2 == 0 {
 			sc, _ = tfScenario(r)
 			if bi%4 == 0 {
 				// a second file with the same text: declarations whose positions coincide with those of
@@ -147,7 +155,10 @@ func runC18(run *Run, replay string) {
 			continue
 		}
 		var typedAt []int
-		if bi%3 == 1 {
+		if bi >= bases {
+			typedAt = sc.Offsets
+		}
+		if bi < bases && bi%3 == 1 {
 			// a typing state: the beginning of a new top-level name on a line of its own - at the very
 			// start of the file, between two items or at the end (the rest of the file parses cleanly)
 			body0 := sc.Main.Ctx.Files[sc.File].Body.(*hclsyntax.Body)
@@ -196,7 +207,7 @@ func runC18(run *Run, replay string) {
 		}
 		nsTyping := false
 		var nsPoints []int
-		if bi%6 == 2 && len(typedAt) == 0 {
+		if bi < bases && bi%6 == 2 && len(typedAt) == 0 {
 			// a namespaced function name being typed as an attribute value inside a block (the parser reports a
 			// syntax error for that value only; the rest of the file parses cleanly)
 			src0 := string(sc.Src)
@@ -257,7 +268,10 @@ func runC18(run *Run, replay string) {
 				nrefs++
 			}
 		}
-		if len(typedAt) > 0 && !nsTyping {
+		if bi >= bases {
+			points = []int{0, len(sc.Src)}
+			offs = typedAt
+		} else if len(typedAt) > 0 && !nsTyping {
 			// also insert right before the line being typed
 			points = append([]int{typedAt[0]}, points...)
 			run.Count("typing_states")
@@ -265,6 +279,9 @@ func runC18(run *Run, replay string) {
 		tbl := lcTable(sc.Src)
 		for _, at := range points {
 			ins := pick(r, inserts)
+			if bi >= bases {
+				ins = inserts[3+bi%5]
+			}
 			dl, db := strings.Count(ins, "\n"), len(ins)
 			nsrc := string(sc.Src[:at]) + ins + string(sc.Src[at:])
 			w2 := newWorld()
